@@ -468,6 +468,7 @@ func loadWorld(repo string, only []string) (*World, error) {
 			}
 		}
 		pk.index()
+		pk.addAutoMapLoops()
 		if len(pk.Contracts) > 0 {
 			if err := pk.injectAndRecheck(w); err != nil {
 				return nil, err
